@@ -214,6 +214,9 @@ func (m *defineModel) valueAtom(v aval) string {
 		if n, ok := i.v.(aInt); ok {
 			return fmt.Sprintf("n:%d", int64(n))
 		}
+		if b, ok := i.v.(aBool); ok {
+			return fmt.Sprintf("%v", bool(b))
+		}
 	}
 	return fmt.Sprintf("?kind%d", k)
 }
